@@ -60,14 +60,15 @@ func (t *qeTable) col(name string) int {
 // ---- generator pools ---------------------------------------------------------
 
 var (
-	qeHostNames = []string{"alpha", "Alpha", "ALPHA", "beta", "db.prod", "a.b.c", "x.1", "x", "web", "web-2", "web01", "Web01", "Zürich", "ÄPFEL", "äpfel", "日本", "gw", "h-1", "h_2", "node.lan.example", "mail"}
-	qeSvcNames  = []string{"ping", "Ping", "http", "HTTP", "disk /", "load", "cpu.usage", "Über", "ssh"}
-	qeGroups    = []string{"linux", "Linux", "prod", "web", "db.cluster", "Everything", "empty", "über"}
-	qeSGroups   = []string{"critical", "Web", "web", "infra.core", "none"}
+	// ("dbxprod", "x-1": names that differ from a dotted name exactly at the dot - an escaped dot must not match them)
+	qeHostNames = []string{"alpha", "Alpha", "ALPHA", "beta", "db.prod", "a.b.c", "x.1", "x", "web", "web-2", "web01", "Web01", "Zürich", "ÄPFEL", "äpfel", "日本", "gw", "h-1", "h_2", "node.lan.example", "mail", "dbxprod", "x-1"}
+	qeSvcNames  = []string{"ping", "Ping", "http", "HTTP", "disk /", "load", "cpu.usage", "cpu_usage", "Über", "ssh"}
+	qeGroups    = []string{"linux", "Linux", "prod", "web", "db.cluster", "db-cluster", "Everything", "empty", "über"}
+	qeSGroups   = []string{"critical", "Web", "web", "infra.core", "infra_core", "none"}
 	qeContacts  = []string{"alice", "bob", "Carol", "dave", "omd"}
 	qeCVNames   = []string{"FOO", "BAR", "LOC", "TAG"}
 	qeCVValues  = []string{"1", "1", "x", "Berlin", "berlin", "a b", "", "42"}
-	qeTexts     = []string{"OK", "ok - all fine", "CRITICAL: disk full", "WARN 80%", "", "a.b", "Ünïcode", "x|y=1", "line (1) [x]"}
+	qeTexts     = []string{"OK", "ok - all fine", "CRITICAL: disk full", "WARN 80%", "", "a.b", "a-b", "Ünïcode", "x|y=1", "line (1) [x]"}
 	qeFlagSets  = [][]string{{}, {"Naemon"}, {"Naemon", "HasLastUpdateColumn"}, {"Icinga2"}, {"Shinken"}}
 )
 
@@ -122,7 +123,7 @@ func qeGenBackend(r *vRand, idx int, maxHosts int) *qeBackend {
 	}
 	if len(hostNames) >= 2 && r.chance(1, 2) {
 		// a name which is a prefix of another one, followed by a character below ';' (joined keys order differently)
-		pair := vPick(r, [][]string{{"web", "web-2"}, {"x", "x.1"}, {"web", "web01"}, {"h", "h-1"}})
+		pair := vPick(r, [][]string{{"web", "web-2"}, {"x", "x.1"}, {"web", "web01"}, {"h", "h-1"}, {"db.prod", "dbxprod"}, {"x.1", "x-1"}})
 		rest := []string{}
 		for _, n := range hostNames {
 			if n != pair[0] && n != pair[1] {
